@@ -483,7 +483,11 @@ func substParam(t *ir.Term, name string, by *ir.Term) *ir.Term {
 func newLen(c *core.Ctx, sh string, ops map[string]*ssa.Function) {
 	fn := ops["New"]
 	name := sh + ": Length(New(xs...)) = len(xs)"
-	an := c.Analyze(fn)
+	// New may delegate to a helper that holds the loop (`prepend(xs, onto)`): followed
+	an := c.AnalyzeLoops(fn)
+	if len(an.Problems) > 0 {
+		an = c.Analyze(fn)
+	}
 	if len(an.Problems) > 0 {
 		c.Undecided("law", name, fn.Pos(), "New could not be modelled")
 		return
